@@ -766,3 +766,67 @@ func init() {
 		Trigger:  triggerData,
 	})
 }
+
+// ---------------------------------------------------------------------------
+// C13: query resources
+
+func queryConfig(t *rapid.T, p *Profile) WorldConfig {
+	raws := []string{"a=1", "a=1&b=1", "b=1&a=1", "c=1", "a=1&c=1", ""}
+	mk := func(label string) map[string]string {
+		qm := map[string]string{}
+		for _, r := range raws {
+			switch rapid.IntRange(0, 3).Draw(t, label) {
+			case 0:
+				qm[r] = r // raw = normalised
+			case 1:
+				qm[r] = "a=1&b=1"
+			case 2:
+				qm[r] = "n"
+			default:
+				if r != "" {
+					qm[r] = r
+				}
+			}
+		}
+		if _, ok := qm[""]; ok && rapid.Bool().Draw(t, label+"base") {
+			delete(qm, "")
+		}
+		// a service's normalisation is idempotent: a normalised query maps to itself
+		var vals []string
+		for _, v := range qm {
+			vals = append(vals, v)
+		}
+		for _, v := range vals {
+			qm[v] = v
+		}
+		for k, v := range qm {
+			qm[k] = qm[v]
+		}
+		return qm
+	}
+	return WorldConfig{Protocol: true, Resources: []ResDef{
+		{Name: "t.q", Type: "model", Model: map[string]Val{"x": Prim("1"), "r": Ref("t.a")}, QueryMap: mk("qm1")},
+		{Name: "t.p", Type: "collection", Coll: []Val{Prim("1"), Prim("2"), Prim("1")}, QueryMap: mk("qm2")},
+		{Name: "t.a", Type: "model", Model: map[string]Val{"x": Prim("1"), "q": Ref("t.q?a=1")}},
+	}}
+}
+
+func init() {
+	rids := []string{"t.q?a=1", "t.q?a=1&b=1", "t.q?b=1&a=1", "t.q?c=1", "t.q?a=1&c=1", "t.q", "t.p?a=1", "t.p?a=1&b=1", "t.p?b=1&a=1", "t.p?c=1", "t.p", "t.a"}
+	register(&SimProp{
+		ID: "C13",
+		Profiles: []*Profile{
+			{Name: "c13-query", MinOps: 10, MaxOps: 60, MaxConns: 3, Versions: []string{"1.2.3", "1.2.3", "1.1.1"}, Protocol: true, Prologue: 50, RIDs: rids,
+				W: weightsWith(map[string]int{"badreq": 0, "burst": 0, "auth": 0, "call": 0, "new": 0, "mutate": 2, "custom": 1, "silent": 2, "sysreset": 4, "qmutate": 24, "qevent": 18,
+					"delete": 0, "reaccess": 1, "token": 0, "httpget": 2, "httppost": 0, "subscribe": 22, "get": 4, "unsubscribe": 6, "close": 1, "connect": 3}),
+				AccessOut: map[string]int{"grant": 20, "deny": 1},
+				GetOut:    map[string]int{"ok": 16, "notfound": 1, "err": 1, "timeout": 1},
+				QueryOut:  map[string]int{"events": 10, "full": 5, "err": 2, "notfound": 2, "timeout": 2},
+				Patterns:  []string{">", "t.q", "t.p", "t.*", "t.a"},
+			},
+		},
+		Config:   queryConfig,
+		Monitors: func() []Monitor { return []Monitor{NewMonC13(), NewMonC01(), NewMonC07()} },
+		Trigger:  triggerData,
+	})
+}
